@@ -2,6 +2,7 @@
    via_modify is the Gallina transcription of ViaModifier.ModifyRequest with the
    shapes/constants of the current source (Tables.v); a tag is name ++ "-" ++ hex(10 random bytes). *)
 From G01 Require Import Via ViaCheck ViaProofs Ob18.
+From G01 Require Import ReqE2E ReqProofs RouteProofs Ob01.
 
 (* The forwarded request carries ONE Via field whose list elements are all elements received
    (over all field lines, in order) followed by exactly this instance's element, with the
@@ -113,6 +114,50 @@ Theorem T18_first_line_only_hop_loses_tag : exists tag tag' h h',
   own_sub tag (h_values via_key h') = false.
 Proof. exact legacy_hop_loses_tag. Qed.
 Print Assumptions T18_first_line_only_hop_loses_tag.
+
+(* ---- ROUTES, over the whole request modifier stack (hop-by-hop removal, forwarded, framing, via, inner group with
+   any header rules / credentials): modify_request_cfg / modify_request of ReqPipeline.v. ---- *)
+
+(* This instance's tag text in a Via field line that survives the documented hop-by-hop removal: the stack never
+   forwards the request, and answers 400 unless its Content-Length fields are contradictory (then 500). *)
+Theorem T18_stack_refuses_own_element : forall cfg tag r,
+  tag <> [] -> via_survives tag (q_hdr r) = true ->
+  (forall r', modify_request_cfg cfg tag r <> Passed r') /\
+  (framing_contradictory (after_removal (q_hdr r)) = false -> modify_request_cfg cfg tag r = Refused 400).
+Proof. exact f18_stack_refuses_own. Qed.
+Print Assumptions T18_stack_refuses_own_element.
+
+(* A forwarding loop terminates at its first repetition: A forwarded r as r1; after ANY hops whose combined effect
+   on the header keeps A's tag text in a surviving Via line the request reaches A again as r2: A does not forward it. *)
+Theorem T18_route_terminates : forall tag r r1 (hops : hmap -> hmap) r2 cfg,
+  tag <> [] -> modify_request tag r = Passed r1 ->
+  (own_sub tag (raw_values via_key (q_hdr r1)) = true -> via_survives tag (hops (q_hdr r1)) = true) ->
+  q_hdr r2 = hops (q_hdr r1) ->
+  (forall r3, modify_request_cfg cfg tag r2 <> Passed r3) /\
+  (framing_contradictory (after_removal (q_hdr r2)) = false -> modify_request_cfg cfg tag r2 = Refused 400).
+Proof. exact f18_route_terminates. Qed.
+Print Assumptions T18_route_terminates.
+
+(* A -> A.  wire_ok: what travels between two hops keeps the Via field lines and adds at most "Connection: close"
+   (the modelled net/http Transport is such a wire: T18_transport_is_wire). *)
+Theorem T18_self_route : forall tag r r1 r2 cfg,
+  tag <> [] -> modify_request tag r = Passed r1 -> wire_ok (q_hdr r1) (q_hdr r2) ->
+  forall r3, modify_request_cfg cfg tag r2 <> Passed r3.
+Proof. exact f18_self_route. Qed.
+Print Assumptions T18_self_route.
+
+(* A -> B -> A, B another instance of this stack with any tag (also one configured with the same name). *)
+Theorem T18_two_instance_route : forall tagA tagB rA r1 r2 r3 r4 cfg,
+  tagA <> [] ->
+  modify_request tagA rA = Passed r1 -> wire_ok (q_hdr r1) (q_hdr r2) ->
+  modify_request tagB r2 = Passed r3 -> wire_ok (q_hdr r3) (q_hdr r4) ->
+  forall r5, modify_request_cfg cfg tagA r4 <> Passed r5.
+Proof. exact f18_two_instance_route. Qed.
+Print Assumptions T18_two_instance_route.
+
+Theorem T18_transport_is_wire : forall x r, wire_ok (q_hdr r) (transport_hdr x r).
+Proof. exact transport_hdr_is_wire. Qed.
+Print Assumptions T18_transport_is_wire.
 
 (* Non-vacuity: a concrete chain over two field lines with a comment is forwarded with the
    element appended, and comes back refused. *)
